@@ -51,6 +51,7 @@ fn main() {
             if args.len() < 2 {
                 usage();
             }
+            std::panic::set_hook(Box::new(|_| {}));
             std::process::exit(check(&args[1..]));
         }
         "replay" => {
@@ -66,6 +67,24 @@ fn main() {
         "selftest" => {
             let props: Vec<String> = props::CLAIMED.iter().map(|s| s.to_string()).collect();
             std::process::exit(determinism(&props, 300));
+        }
+        "one" => {
+            std::panic::set_hook(Box::new(|_| {}));
+            let thorough = args.get(4).map_or(false, |t| t == "thorough");
+            let s = props::generate(&args[1], args[2].parse().unwrap(), args[3].parse().unwrap(), thorough);
+            let mut ctx = replica::Ctx::new(true);
+            let out = props::execute(&mut ctx, &s);
+            for e in ctx.trace.as_ref().unwrap().iter().take(100) {
+                println!("  event: {e}");
+            }
+            for v in &out.violations {
+                println!("violation {}: {}", v.class, v.detail);
+            }
+            for c in &out.collateral {
+                println!("collateral: {c}");
+            }
+            println!("digest {:016x} ontologies {} nontrivial {}", out.digest, out.ontologies, out.nontrivial);
+            ctx.cleanup();
         }
         "show" => {
             let s = props::generate(&args[1], args[2].parse().unwrap(), args[3].parse().unwrap(), args.get(4).map_or(false, |t| t == "thorough"));
